@@ -92,12 +92,22 @@ theorem bv_rewire (w : World) (x : Nat) (ups : List Nat) :
   · exact C05W.bv_setWaiting w x true true
   · rfl
 
-theorem stat0_of_swr {w w' : World} (h : swr w' = swr w) (y : Nat) :
-    stat0 (w'.dev y) = stat0 (w.dev y) := by
-  have h1 : w'.devs.map stat0 = w.devs.map stat0 := congrArg Prod.fst h
-  have e : ∀ v : World, stat0 (v.dev y) = (v.devs.map stat0).getD y (stat0 default) :=
-    fun v => (getD_map stat0 v.devs y default).symm
-  rw [e, e, h1]
+
+theorem parts_rewire (w : World) (x : Nat) (ups : List Nat) : (w.rewire x ups).parts = w.parts := by
+  unfold World.rewire
+  dsimp only
+  rw [FloorCoreL.foldl_preserve World.parts]
+  · rw [modDev_parts, FloorCoreL.foldl_preserve World.parts]
+    · split
+      · exact setWaiting_parts ..
+      · rfl
+    · intro s a; exact modDev_parts ..
+  · intro s a
+    split
+    · rfl
+    · split
+      · rw [core_eq_parts (spaceAvailable_core _ _)]; exact modDev_parts ..
+      · exact modDev_parts ..
 
 theorem kind_rewire (w : World) (x : Nat) (ups : List Nat) (y : Nat) :
     ((w.rewire x ups).dev y).kind = (w.dev y).kind :=
@@ -138,16 +148,23 @@ been initialised (`Ini`), the scripts do not re-wire, and — if batchers, batch
 exist — the scripts schedule failures of non-sinks only. -/
 theorem GoodB.rewireD {w : World} (h : GoodB w) (hi : Ini w) (hnr : NR w)
     (hb : ¬ NoBatch w → ScrB w) (x : Nat) (ups : List Nat) (hok : RewOK w x ups)
-    (hfin : SC (w.rewire x ups)) : GoodB (w.rewire x ups) ∧ Ini (w.rewire x ups) := by
+    (hfin : SC (w.rewire x ups))
+    (hty : ¬ OneGrp w → ∀ cl, C03Z.Typed cl w → C03Z.Typed cl (w.rewire x ups)) :
+    GoodB (w.rewire x ups) ∧ Ini (w.rewire x ups) := by
   have hg := h.g.rewireD x ups hok hfin (fun z hz => hi.inited hz)
   have r : swr (w.rewire x ups) = swr w := swr_rewire w x ups
   have hi' : Ini (w.rewire x ups) := by
     obtain ⟨h1, h2, _⟩ := C20W.Pv_applyOp w (.rewire x ups) rfl hi.1
     exact ⟨h1, h2.trans hi.2⟩
   refine ⟨⟨hg, fun hr => inv11_rewire (h.r (by rw [← hasRes_of_swr r]; exact hr)) x ups,
-    fun hn => ?_, Or.inr hi'⟩, hi'⟩
-  have hn0 : ¬ NoBatch w := fun hb0 => hn ((noBatch_of_swr r).mpr hb0)
-  exact ci_rewire (h.c hn0) x ups hfin hnr (hb hn0) hg.ev
+    fun hn => ?_, Or.inr hi', ?_⟩, hi'⟩
+  · have hn0 : ¬ NoBatch w := fun hb0 => hn ((noBatch_of_swr r).mpr hb0)
+    exact ci_rewire (h.c hn0) x ups hfin hnr (hb hn0) hg.ev
+  · have hl : (w.rewire x ups).devs.length = w.devs.length := by
+      have := congrArg (fun t => t.1.length) r
+      simpa [swr] using this
+    exact h.k.of_kinds hl (kind_rewire w x ups) (fun y => stat0_group (stat0_of_swr r y))
+      (congrArg (fun t => t.2.2) r) (sv_rewire w x ups) (parts_rewire w x ups) (scr_rewire w x ups) hty
 
 theorem sd_of_swr {w w' : World} (e : swr w' = swr w) : sd w' = sd w := by
   have h1 : w'.devs.map stat0 = w.devs.map stat0 := congrArg Prod.fst e
@@ -163,9 +180,9 @@ theorem S4.rewire {w : World} (h : S4 w) (x : Nat) (ups : List Nat) (hfin : SC (
     S4 (w.rewire x ups) := by
   have r : swr (w.rewire x ups) = swr w := swr_rewire w x ups
   have hscr : (w.rewire x ups).scripts = w.scripts := scr_rewire w x ups
-  refine ⟨⟨hfin, h.1.2.of_scripts hscr⟩, fun hr => ?_, fun hn => ?_⟩
+  refine ⟨⟨hfin, h.1.2.of_scripts hscr⟩, fun hr => ?_, fun hn => ?_, oneGrp_of_swr h.2.2.2 r⟩
   · exact (h.2.1 (by rw [← hasRes_of_swr r]; exact hr)).of_ss ⟨sd_of_swr r, hscr⟩
-  · have := h.2.2 (fun hb => hn ((noBatch_of_swr r).mpr hb))
+  · have := h.2.2.1 (fun hb => hn ((noBatch_of_swr r).mpr hb))
     exact ⟨scrB_of_kind hscr (kind_rewire w x ups) this.1, sizesPos_of_swr r this.2⟩
 
 end C03W
